@@ -65,6 +65,7 @@ BuildOk(k, rec, b, ly, s) ==
         /\ Require(SyndromesZero(d), k, rec, "C02", "syndromes")
         /\ Require(ECIsRemainder(d), k, rec, "C07", "EC codewords are not the remainder")
         /\ Require(RoundTrip(b, o, d, ly), k, rec, "C01", "round trip")
+        /\ ("rows_agree" \in DOMAIN out => Require(out.rows_agree, k, rec, "C01", "the row accessor qr[r] does not return row r of the symbol"))
         /\ Require(AutoModeCompact(b, o), k, rec, "C09", "mode")
         /\ Require(MinimalVersion(b, o, d, ly), k, rec, "C05", "version")
         /\ Require(DataCodewordsISO(b, o, d, ly), k, rec, "C06", "data bits")
@@ -97,6 +98,7 @@ BuildLite(k, rec, b, s) ==
         /\ Require(out.ecl = e /\ out.mask \in 0..7 /\ (b.mask < 0 \/ out.mask = b.mask), k, rec, "C04", "forced option or default level not honoured")
         /\ Require(out.mode = mode, k, rec, "C09", "mode")
         /\ Require(out.tail_clean, k, rec, "C03", "module outside the size x size square modified")
+        /\ ("rows_agree" \in DOMAIN out => Require(out.rows_agree, k, rec, "C01", "the row accessor qr[r] does not return row r of the symbol"))
   IN IF checks THEN s ELSE s
 
 BuildStep(k, rec, b, ly, s) ==
@@ -254,6 +256,9 @@ TextStep(k, rec) ==
        /\ (shape =>
              /\ Require(TextBorder(n, rec.lines), k, rec, "C16", "border is not one light module on all four sides")
              /\ Require(TextModules(n, rec.vals, rec.lines), k, rec, "C16", "module not reproduced in place"))
+       \* QRCode::print: what reaches standard output is the text rendering followed by one line terminator
+       /\ ("printed" \in DOMAIN rec =>
+             Require(rec.printed = rec.lines \o << <<>> >>, k, rec, "C16", "print() writes something other than the text rendering and a newline"))
 
 FrameChecks(k, rec, reg, o, n, prop) ==
   IF ~reg.hasImage THEN TRUE
